@@ -415,7 +415,39 @@ def to_linen(case, ctx):
       node = node.unbox() if isinstance(node, meta.AxisMetadata) else node
       require(close(node, v.value), lambda: f'call {i}: Linen variable '
               f'{col}/{p} differs from the NNX reference state')
-  ctx.note(labels=[case['cls'], 'nested' if case['nested'] else 'flat'],
+  # sharding metadata survives NNX -> Linen *as sharding*: the partition spec
+  # Linen derives from the converted variable is the one the annotation means
+  # (logical names go through the variable's own sharding_rules or the
+  # logical-axis-rules context; oracle: the mapping applied by hand)
+  from jax.sharding import PartitionSpec
+  rules = (('embed', 'in'), ('mlp', 'out'))
+  names = [('embed', 'mlp'), ('embed', None), ('mlp', 'embed')][seed % 3]
+  rule_form = ['none', 'local', 'context'][(seed // 3) % 3]
+  kw = {'sharding_rules': rules} if rule_form == 'local' else {}
+  kinit = nnx.with_partitioning(nnx.initializers.lecun_normal(), names, **kw)
+  with sut('ToLinen(nnx.Linear, with_partitioning)'):
+    sm = bridge.ToLinen(nnx.Linear, args=(d, d + 1),
+                        kwargs=dict(kernel_init=kinit))
+    sv = sm.init(jax.random.key(seed), x)
+  kbox = sv['params']['kernel']
+  require(isinstance(kbox, meta.AxisMetadata) and tuple(
+      kbox.metadata.get('sharding', ())) == names, lambda: 'sharding names '
+          f'{names} of the NNX kernel became {getattr(kbox, "metadata", None)}')
+  mapping = dict(rules) if rule_form != 'none' else {}
+  want = PartitionSpec(*[mapping.get(n, n) for n in names])
+  with sut('nn.get_partition_spec on ToLinen variables'):
+    if rule_form == 'context':
+      with nn.logical_axis_rules(rules):
+        got = nn.get_partition_spec(sv)['params']['kernel']
+    else:
+      got = nn.get_partition_spec(sv)['params']['kernel']
+  require(got == want, lambda: f'ToLinen kernel annotated {names} (rules: '
+          f'{rule_form}) has partition spec {got}, expected {want}')
+  require(nn.get_partition_spec(sv)['params']['bias'] == PartitionSpec(),
+          'unannotated ToLinen bias is not replicated')
+
+  ctx.note(labels=[case['cls'], 'nested' if case['nested'] else 'flat',
+                   'rules:' + rule_form],
            nontrivial=case['cls'] == 'norm' and bool(mutable)
            and case['calls'] >= 2)
 
